@@ -81,6 +81,7 @@ PHYS_QUICK = [
     ('phys_chp_cold', dict(T=2, heat=True, fuel=True, mr=2, md=0, tar=0, tao=2, ramp=False)),
     ('phys_plant_profiles', dict(T=4, heat=False, fuel=False, mr=0, md=0, tar=0, tao=1, ramp=True, sr=([1, 2], [1.5, 2.5]), sdr=([1], [2]))),
     ('phys_plant_quarter_hour_running', dict(T=3, heat=False, fuel=True, mr=0, md=0, tar=1, tao=0, ramp=True, last='sym', freq='15min')),
+    ('phys_plant_profiles_lower_bounds_only_quarter_hours', dict(T=4, heat=False, fuel=False, mr=0, md=0, tar=0, tao=1, ramp=True, sr=([1, 2], [1, 2]), sdr=([1], [1]), lower_only=True, freq='15min', ramp_freq='15min')),
     ('phys_plant_profiles_mincap_series', dict(T=4, heat=False, fuel=False, mr=0, md=0, tar=0, tao=1, ramp=False, sr=([1, 2], [1.5, 2.5]), mincap_ts=True)),
     # profiles as long as / longer than the horizon (rolling or split optimisation with short intervals)
     ('phys_plant_profiles_longer_than_horizon', dict(T=2, heat=False, fuel=False, mr=0, md=0, tar=0, tao=1, ramp=True, sr=([1, 2, 2.5], [1.5, 2.5, 3]), sdr=([1, 2, 2.5], [2, 3, 3.5]))),
@@ -104,18 +105,21 @@ PHYS_THOROUGH = PHYS_QUICK + [
 
 # ------------------------------------------------------------------------------------------------ helpers
 def build_plant(D, T, heat, fuel, mr, md, tar, tao, ramp=False, last=None, cf=None, sr=None, sdr=None, start_costs=True,
-                min_zero=False, portfolio=False, freq='h', mincap_ts=False, unit='h'):
+                min_zero=False, portfolio=False, freq='h', mincap_ts=False, unit='h', ramp_freq=None, lower_only=False):
     eao = lift.import_eao()
     tg = shapes.grid(T, freq, unit)
     names = ['P'] + (['H'] if heat else []) + (['G'] if fuel else [])
     nds = shapes.nodes(*names)
     kw = {}
+    if ramp_freq is not None:
+        kw['ramp_freq'] = ramp_freq
     if cf == 'step' and heat:
         # time-varying conversion factor as interval data with per-step values (coefficient parameter: generic concrete values)
         vals = [D.coef('cf%d' % t, [0.5, 0.25, 1.0, 0.75, 0.2, 0.6][t % 6], lo_strict=0) for t in range(T)]
         kw['cf_sym'] = {'start': [tg.timepoints[t] for t in range(T)], 'end': [shapes.tstep(tg, t + 1) for t in range(T)], 'values': vals}
     pl = shapes.mk_plant(D, 'pl', nds, T, fuel=fuel, heat=heat, mr=mr, md=md, tar=tar, tao=tao, ramp=ramp, start_costs=start_costs,
-                         last_dispatch=last, start_ramp=sr, shutdown_ramp=sdr, min_cap_zero=min_zero, tg=tg, **kw)
+                         last_dispatch=last, start_ramp=(sr[0], None) if (sr and lower_only) else sr, shutdown_ramp=(sdr[0], None) if (sdr and lower_only) else sdr,
+                         min_cap_zero=min_zero, tg=tg, **kw)      # lower_only: the profiles are GIVEN as lower bounds only (upper = lower is the documented default)
     mincaps = None
     if mincap_ts:
         # time-dependent minimum capacity (a column of the price data), above the profile bounds and below max_cap
@@ -282,12 +286,12 @@ def run_pattern(rec, seed, T, mr, md, tar, tao, heat, start_costs, pgrid=None):
 
 
 def run_physics(rec, seed, T, heat, fuel, mr, md, tar, tao, ramp, last=None, cf=None, sr=None, sdr=None, start_costs=True,
-                min_zero=False, level='A', freq='h', mincap_ts=False):
+                min_zero=False, level='A', freq='h', mincap_ts=False, ramp_freq=None, lower_only=False):
     eao = lift.import_eao()
 
     def build(D):
         pl, tg, prices, nds = build_plant(D, T, heat, fuel, mr, md, tar, tao, ramp=ramp, last=last, cf=cf, sr=sr, sdr=sdr,
-                                          start_costs=start_costs, min_zero=min_zero, freq=freq, mincap_ts=mincap_ts)
+                                          start_costs=start_costs, min_zero=min_zero, freq=freq, mincap_ts=mincap_ts, ramp_freq=ramp_freq, lower_only=lower_only)
         assets = [pl, shapes.mk_market(D, 'mP', nds[0], T, 'p')]
         k = 1
         if heat:
@@ -525,7 +529,7 @@ def observe(case, kwargs, env, rq):
     T, heat, fuel = kw['T'], kw['heat'], kw['fuel']
     pl, tg, prices, nds = build_plant(D, T, heat, fuel, kw['mr'], kw['md'], kw['tar'], kw['tao'], ramp=kw.get('ramp'), last=kw.get('last'),
                                       cf=kw.get('cf'), sr=kw.get('sr'), sdr=kw.get('sdr'), start_costs=kw.get('start_costs', True),
-                                      min_zero=kw.get('min_zero', False), freq=kw.get('freq', 'h'), mincap_ts=kw.get('mincap_ts', False))
+                                      min_zero=kw.get('min_zero', False), freq=kw.get('freq', 'h'), mincap_ts=kw.get('mincap_ts', False), ramp_freq=kw.get('ramp_freq'), lower_only=kw.get('lower_only', False))
     kw.pop('level', None)
     assets = [pl, shapes.mk_market(D, 'mP', nds[0], T, 'p')]
     k = 1
